@@ -8,7 +8,8 @@ TOL = Fraction(1, 10**12)
 
 def oracle(ctx, obs, label=""):
     metas = [o for o in obs if o["kind"] == "meta"]
-    idx = [o for o in obs if o["kind"] == "idx"]
+    # expression crystals built from the same formulas must satisfy the same clauses (bounds, class, monotonicity)
+    idx = [o for o in obs if o["kind"] == "idx"] + [dict(o, id=o["id"], expr=True) for o in obs if o["kind"] == "expr_idx"]
     crash = [o for o in obs if o["kind"] == "harness_crash"]
     for c in crash:
         ctx.violation("S5", "harness crashed while evaluating indices", {"kind": "crash"}, c)
@@ -22,6 +23,8 @@ def oracle(ctx, obs, label=""):
     for m in metas:
         ctx.seen(("meta", m["id"]))
         axis[m["id"]] = m["axis"]
+        if m["axis"] in ("NegativeUniaxial", "PositiveUniaxial"):
+            UNIAXIAL.add(m["id"])
         known[m["id"]] = m["temp_known"]
         if not (m["parse_ok"] and not m["is_expr"] and m["display"] == m["id"] and m["meta_roundtrip"]
                 and m["from_str_display"] == m["id"]):
@@ -61,17 +64,18 @@ def oracle(ctx, obs, label=""):
         if not okc:
             ctx.violation("S5", f"{cid}: indices {n} at {w*1e9:.3f} nm, {tc} C contradict the declared class {a}",
                           {"kind": "class", "crystal": cid}, rep)
-        groups.setdefault((cid, o["tc"]), []).append((w, n))
-        groups.setdefault(("T", cid, o["w"]), []).append((tc, n))
+        tag = cid + ("#expr" if o.get("expr") else "")
+        groups.setdefault((tag, o["tc"]), []).append((w, n))
+        groups.setdefault(("T", tag, o["w"]), []).append((tc, n))
     for key, pts in groups.items():
         if key[0] == "T":
-            cid = key[1]
+            cid = key[1].split("#")[0]
             if known.get(cid) is False:
                 if any(p[1] != pts[0][1] for p in pts):
                     ctx.violation("S5", f"{cid} is declared temperature-independent but its indices change with temperature",
                                   {"kind": "temp_independent", "crystal": cid}, {"points": pts[:4]})
             continue
-        cid = key[0]
+        cid = key[0].split("#")[0]
         pts.sort()
         for (w1, n1), (w2, n2) in zip(pts, pts[1:]):
             if w2 <= w1:
@@ -91,6 +95,9 @@ def oracle(ctx, obs, label=""):
     return metas, idx
 
 
+UNIAXIAL = set()
+
+
 def correspondence(ctx, idx, builtins):
     goals = []
     meta = {}
@@ -99,8 +106,8 @@ def correspondence(ctx, idx, builtins):
             continue
         W, K = coq_hex(o["w"]), coq_hex(o["tk"])
         for ax in range(3):
-            if ax == 1 and o["n"][1] == o["n"][0]:
-                continue
+            if ax == 1 and o["n"][1] == o["n"][0] and o["id"] in UNIAXIAL:
+                continue   # declared uniaxial: n_y is the same model term as n_x (C01_class proves it); biaxial crystals keep the goal
             V = coq_hex(o["n"][ax])
             cid = f"g{len(goals)}"
             goals.append((cid, f"Rabs (proj {AXES[ax]} (get_indices {o['id']} {W} {K}) - {V}) <= 1e-12", "case_gen"))
@@ -190,6 +197,7 @@ def run(ctx):
             ctx.note(f"replay file unreadable: {e}")
     obs = run_harness(ctx, binp, ["c01", ctx.seed, n], stdin="\n".join(specs) + "\n")
     metas, idx = oracle(ctx, obs)
+    idx = [o for o in idx if not o.get("expr")]
     # user expression crystals built from the same (translated) formulas go through the same comparisons
     eidx = [dict(o, kind="idx", expr=True) for o in obs if o["kind"] == "expr_idx"]
     ctx.count("expression_crystals", len({o["id"] for o in eidx}))
